@@ -146,3 +146,90 @@ package service
 //@   loop 0: invariant forall s string :: has(nonceMap, s) ==> nonceMap[s] <= nonceOf(hexAddr(s)) + len(packedTxs)
 //@   ensures [limit] len(result) <= txCountPerBlock
 //@   ensures [ahead] forall p int :: 0 <= p && p < len(result) ==> result[p] != nil && (result[p].RequestId == 0 ==> result[p].Nonce <= nonceOf(hexAddr(result[p].Source)) + p)
+
+// ---------------------------------------------------------------------------------------------
+// Admission checks (C07) over abstract cryptography: txDigest is the digest of the authenticated fields
+// (what Transaction.GenHash computes), recov the public key recovered from a signature over a message,
+// pkVerify signature verification, pkAddrHex the address of a key, chainIdAt the chain id in force.
+//@ spec abstract fn txDigest(t types.Transaction) common.Hash
+//@ spec abstract fn recov(s common.Sign, m Bytes) common.PublicKey
+//@ spec abstract fn recovOK(s common.Sign, m Bytes) bool
+//@ spec abstract fn pkVerify(pk common.PublicKey, m Bytes, s common.Sign) bool
+//@ spec abstract fn pkAddr(pk common.PublicKey) common.Address
+//@ spec abstract fn addrHex(a common.Address) string
+//@ spec abstract fn chainIdAt(h uint64) string
+
+//@ func ext_txGenHash
+//@   option trusted extern=(*com.tuntun.rangers/node/src/middleware/types.Transaction).GenHash
+//@   ensures arg0 != nil ==> result == txDigest(*arg0)
+//@   modifies nothing
+
+//@ func ext_chainId
+//@   option trusted extern=com.tuntun.rangers/node/src/common.ChainId
+//@   ensures result == chainIdAt(arg0)
+//@   modifies nothing
+
+//@ func ext_recoverPubkey
+//@   option trusted extern=(com.tuntun.rangers/node/src/common.Sign).RecoverPubkey
+//@   ensures (result1 == nil) == recovOK(arg0, old(bytes(arg1))) && (result1 == nil ==> result0 != nil && *result0 == recov(arg0, old(bytes(arg1))))
+//@   modifies nothing
+
+//@ func ext_pkVerify
+//@   option trusted extern=(com.tuntun.rangers/node/src/common.PublicKey).Verify
+//@   requires arg2 != nil
+//@   ensures result == pkVerify(arg0, old(bytes(arg1)), *arg2)
+//@   modifies nothing
+
+//@ func ext_pkGetAddress
+//@   option trusted extern=(com.tuntun.rangers/node/src/common.PublicKey).GetAddress
+//@   ensures result == pkAddr(arg0)
+//@   modifies nothing
+
+//@ func ext_addrGetHexString
+//@   option trusted extern=(com.tuntun.rangers/node/src/common.Address).GetHexString
+//@   ensures result == addrHex(arg0)
+//@   modifies nothing
+
+//@ func verifyTxChainId
+//@   property C07
+//@   requires tx != nil && txPoolLogger != nil
+//@   ensures [exact] (result == nil) == (tx.ChainId == chainIdAt(height))
+//@   ensures [err]   result != nil ==> result == ErrChainId
+//@   modifies nothing
+
+//@ func verifyTransactionHash
+//@   property C07
+//@   requires tx != nil && txPoolLogger != nil
+//@   ensures [exact] (result == nil) == (tx.Hash == txDigest(*tx))
+//@   ensures [err]   result != nil ==> result == ErrHash
+//@   modifies nothing
+
+//@ func compareTx
+//@   property C07
+//@   ensures [exact] result == (tx != nil && expectedTx != nil && tx.Source == expectedTx.Source && tx.Target == expectedTx.Target && tx.Type == expectedTx.Type && tx.ExtraData == expectedTx.ExtraData && tx.Nonce == expectedTx.Nonce && tx.ChainId == expectedTx.ChainId && tx.Data == expectedTx.Data && tx.Hash == expectedTx.Hash)
+//@   modifies nothing
+
+// The signature must be a valid signature over the transaction's own hash, and the key it recovers to must be
+// the declared sender.
+//@ func verifyTransactionSign
+//@   property C07
+//@   requires tx != nil && txPoolLogger != nil
+//@   ensures [authentic] result == nil ==> tx.Sign != nil && recovOK(*tx.Sign, bytes(tx.Hash)) && pkVerify(recov(*tx.Sign, bytes(tx.Hash)), bytes(tx.Hash), *tx.Sign) && tx.Source == addrHex(pkAddr(recov(*tx.Sign, bytes(tx.Hash))))
+//@   ensures [accepts]   tx.Sign != nil && recovOK(*tx.Sign, bytes(tx.Hash)) && pkVerify(recov(*tx.Sign, bytes(tx.Hash)), bytes(tx.Hash), *tx.Sign) && tx.Source == addrHex(pkAddr(recov(*tx.Sign, bytes(tx.Hash)))) ==> result == nil
+//@   ensures [err]       result != nil ==> result == ErrSign
+//@   modifies nothing
+
+// Wrapped Ethereum transactions: RLP decoding, EIP-155 sender recovery and conversion are outside the subset
+// (reflection, secp256k1); the function only reads its arguments.
+//@ func verifyETHTx
+//@   option trusted
+//@   modifies nothing
+
+// A native transaction is admitted only if chain id, hash and signature all check out (and then it is).
+//@ func TxPool.VerifyTransaction
+//@   property C07
+//@   requires tx != nil && txPoolLogger != nil
+//@   ensures [chain]  tx.Type != types.TransactionTypeETHTX && result == nil ==> tx.ChainId == chainIdAt(height)
+//@   ensures [hash]   tx.Type != types.TransactionTypeETHTX && result == nil ==> tx.Hash == txDigest(*tx)
+//@   ensures [sign]   tx.Type != types.TransactionTypeETHTX && result == nil ==> tx.Sign != nil && recovOK(*tx.Sign, bytes(tx.Hash)) && pkVerify(recov(*tx.Sign, bytes(tx.Hash)), bytes(tx.Hash), *tx.Sign) && tx.Source == addrHex(pkAddr(recov(*tx.Sign, bytes(tx.Hash))))
+//@   ensures [honest] tx.Type != types.TransactionTypeETHTX && tx.ChainId == chainIdAt(height) && tx.Hash == txDigest(*tx) && tx.Sign != nil && recovOK(*tx.Sign, bytes(tx.Hash)) && pkVerify(recov(*tx.Sign, bytes(tx.Hash)), bytes(tx.Hash), *tx.Sign) && tx.Source == addrHex(pkAddr(recov(*tx.Sign, bytes(tx.Hash)))) ==> result == nil
